@@ -46,6 +46,38 @@ def api_level(rep, tier_, rng):
             x = mp.mpf("%d/%d" % (p_, q_)); checked += 1
             if not value_eq_round(x._mpf_, Fraction(p_, q_), prec, 'n'):
                 rep.violation("mpf('p/q') not correctly rounded", {"fn": "mpf(p/q)", "text": "%d/%d" % (p_, q_), "prec": prec, "branch": "exact", "clause": "rounded"})
+        # interval literals "a +- b", "a (b)", "a (b%)": the result must contain a - b and a + b.  Directed: the exact end point
+        # lies 1e-70 outside a representable number, so any inward rounding of a or b at the working precision shows
+        def dec(fr):
+            """exact decimal expansion of a dyadic (or terminating) non-negative Fraction"""
+            ip = fr.numerator // fr.denominator; fr -= ip; ds = ""
+            while fr and len(ds) < 400:
+                fr *= 10; d = fr.numerator // fr.denominator; ds += str(d); fr -= d
+            return str(ip) + ("." + ds if ds else "")
+        for _ in range(40 if tier_ == "quick" else 800):
+            prec = rng.choice([10, 24, 53, 64, 100]); iv.prec = prec
+            a = Fraction(rng.choice([1, 2, 3, 10, 1000, 5]) * rng.randint(1, 64), rng.choice([1, 4, 64]))
+            wfrac = Fraction(rng.randint(1, 900), 1024)
+            tgt = round_fraction(a * (1 - wfrac) if rng.random() < 0.5 else a * (1 + wfrac), prec, 'n')
+            T = mpf_value((tgt[0], tgt[1], tgt[2], tgt[1].bit_length()))            # a representable number != a
+            if T == a: continue
+            tiny = Fraction(1, 10 ** rng.choice([40, 70, 120]))
+            b = abs(a - T) + tiny if rng.random() < 0.8 else abs(a - T) - tiny      # end point just outside / just inside T
+            form = rng.randrange(3)
+            if form == 0: text = "%s +- %s" % (dec(a), dec(b))
+            elif form == 1: text = "%s (%s)" % (dec(a), dec(b))
+            else:
+                pc = Fraction(rng.randint(1, 999), 10 ** rng.randint(0, 3)); b = a * pc / 100; text = "%s (%s%%)" % (dec(a), dec(pc))
+            try:
+                v = iv.mpf(text)
+            except Exception as e:
+                rep.violation("interval literal %r rejected (%s)" % (text[:80], type(e).__name__), {"fn": "iv.mpf(str)", "text": text[:200], "prec": prec, "branch": "exact", "clause": "interval-form"}); continue
+            checked += 1
+            lo_, hi_ = v._mpi_
+            lo = mpf_value(lo_) if lo_[1] else Fraction(0); hi = mpf_value(hi_) if hi_[1] else Fraction(0)
+            if not (lo <= a - b and a + b <= hi):
+                rep.violation("interval literal 'a +- b' / 'a (b)' / 'a (b%%)' does not contain a - b and a + b",
+                              {"fn": "iv.mpf(str)", "text": text[:300], "prec": prec, "branch": "exact", "clause": "interval-form"})
         for s, want in (("inf", mp.inf), ("+inf", mp.inf), ("-inf", mp.ninf), ("  INF ", mp.inf)):
             checked += 1
             if mp.mpf(s) != want: rep.violation("special string %r misparsed" % s, {"fn": "mpf(str)", "text": s, "branch": "special", "clause": "special"})
